@@ -211,7 +211,22 @@ UNITS['U14k'] = dict(
                  'format! on error paths stubbed (message text irrelevant)'],
     not_covered=['FileBlobWriter (file system)', 'Cap\'n Proto encode/decode of segments and catalogue (A-capnp)'])
 
+UNITS['U21k'] = dict(
+    kind='kani', crate='kani/U21', timeout_s=900, mem_gb=20, jobs=2,
+    title='BOUNDED (literals <= 4 chars): parser.rs get_limit / get_offset numeric-literal conversion (expression slices)',
+    harnesses=[dict(name='proofs::limit_never_panics', bounded='literal <= 4 chars over 0-9 . e -, unwind 6', unwind=6, extra=['-Z', 'stubbing'], clause='Ok iff unsigned integer literal; otherwise an error value; no panic', fn='parser::get_limit[slice]'),
+               dict(name='proofs::offset_never_panics', bounded='literal <= 4 chars over 0-9 . e -, unwind 6', unwind=6, extra=['-Z', 'stubbing'], clause='Ok iff unsigned integer literal; otherwise an error value; no panic', fn='parser::get_offset[slice]'),
+               dict(name='proofs::vx_canary', expect_fail=True)],
+    assumptions=['slice: only the conversion arm; the sqlparser AST match around it is dropped', 'literals longer than 4 characters (e.g. beyond u64) are not generated: parse::<u64> overflow path covered only by reading'],
+    not_covered=['sqlparser', 'convert_to_native_expr', 'get_raw_val'])
+
 PROPS = {
+    'C12': dict(level='other', units=['U13k', 'U21k'],
+                level_text='complete Kani proofs of the LIMIT/OFFSET row-window arithmetic (never more rows than LIMIT, no panic for any limit/offset/length); bounded Kani check that LIMIT/OFFSET literals give an error value instead of a panic',
+                level_note='narrow: sqlparser, convert_to_native_expr, result assembly (BatchResult::validate) and channel delivery are not covered',
+                technique='contract-based deductive verification (Kani complete + bounded harnesses) of extracted slices',
+                explanation='U13k: loop-free harnesses over all (limit, offset, len) - complete. U21k: literals of at most 4 characters over 0-9 . e - (bounded). Everything else about query strings is outside the reach of contracts on this code base.',
+                assumptions=[], not_covered=['sqlparser', 'convert_to_native_expr', 'BatchResult::validate', 'unknown tables / columns handling']),
     'C07': dict(level='proof', units=['U02', 'U03', 'U04k', 'U04v'],
                 level_text='Verus proofs of the column rebuild kernels used by compaction: ColumnBuffer append with null maps (incl. the incoming-null-map path that only compaction takes), string packing round trip, integer encode / delta / decode kernels; complete Kani proof of the width/offset choice',
                 level_note='plan_compaction, Table::compact swap, eviction / reload (LRU), and the free stack-machine column::decode over dyn Data are not covered; see known findings',
